@@ -46,7 +46,9 @@ def nontrivial(profile, counters):
 
 RULES = {
     'torn': "one case = one seeded plan (swarm config + op list with per-op decision tapes) executed in the cache "
-            "world; non-trivial = at least one fault fired inside an op (crash, torn write, one-off errno, disk "
+            "world, or one variant of a recorded plan in a systematic sweep (one seeded history in 40 [quick] / 10 "
+            "[thorough] is re-executed once per seam step x {crash before, crash after, EIO, EACCES, torn write at 3 "
+            "offsets}); non-trivial = at least one fault fired inside an op (crash, torn write, one-off errno, disk "
             "full, power loss, killed while paused), a corruption was applied to an existing pickle, or a parse ran "
             "against a damaged entry; distinct = distinct sha1 of the full event log (every seam step with process, "
             "call kind, path class, decision and size, plus op boundaries and outcomes)",
@@ -241,8 +243,69 @@ def _worker(args):
                                       'digest': res['digest']})
             if len(out['violations']) >= 3:
                 break
+        elif profile == 'torn' and seed % (40 if tier == 'quick' else 10) == 7 and time.time() < deadline:
+            sweep_faults(plan, res, seed, out, deadline)
+            if out['violations']:
+                break
     faulthandler.cancel_dump_traceback_later()
     return out
+
+
+def sweep_faults(plan, res, seed, out, deadline):
+    """Systematic fault points inside one seeded history: re-execute the recorded plan once per
+    (seam step of an op) x (crash before, crash after, EIO, EACCES, torn write at 3 offsets), with
+    every other decision as recorded.  Everything after the fault, including the epilogue's
+    recovery/repair checks, is judged by the same oracle."""
+    from . import cacheworld as cw
+    steps = {}
+    for ev in res['events']:
+        if ev[0] == 's':
+            steps.setdefault(ev[1], []).append((ev[3], ev[4]))      # op index -> [(kind, path class)]
+    c = out['counters']
+    c['sweep.histories'] = c.get('sweep.histories', 0) + 1
+    for i, op in enumerate(plan['ops']):
+        if op.get('k') != 'parse' or op.get('quiet') or i not in steps:
+            continue
+        tape = op.get('t', [])
+        pos = 0
+        for (kind, pclass) in steps[i]:
+            j = pos
+            pos += 1
+            if j >= len(tape) or tape[j] != 0:
+                if j < len(tape) and tape[j] == cw.D_TORN:
+                    pos += 1
+                continue
+            variants = [[cw.D_CRASH_BEFORE], [cw.D_CRASH_AFTER]]
+            if pclass not in ('src', 'other'):
+                variants += [[cw.D_EIO], [cw.D_EACCES]]
+            if kind == 'write':
+                variants += [[cw.D_TORN, 0], [cw.D_TORN, 128], [cw.D_TORN, 255]]
+            for var in variants:
+                if time.time() > deadline:
+                    return
+                cand = copy.deepcopy(plan)
+                t = cand['ops'][i]['t']
+                t[j:j + 1] = var
+                cand['config']['p_fault'] = 0.0
+                try:
+                    r = replay_plan(cand)
+                except BaseException as e:
+                    out['harness'].append('sweep of seed %d op %d step %d: %r' % (seed, i, j, e))
+                    return
+                c['sweep.fault_points'] = c.get('sweep.fault_points', 0) + 1
+                out['runs'] += 1
+                out['steps'] += r['steps']
+                for k, v in r['counters'].items():
+                    if k.startswith('fault.') or k.startswith('probe.repair') or k == 'op.crashed':
+                        c[k] = c.get(k, 0) + v
+                if r['harness_error']:
+                    out['harness'].append('sweep of seed %d: %s' % (seed, r['harness_error']))
+                    return
+                out['digests'][r['digest']] = seed
+                if r['violation'] is not None:
+                    out['violations'].append({'seed': seed, 'plan': cand, 'violation': r['violation'],
+                                              'digest': r['digest']})
+                    return
 
 
 def sample_of(plan, res, seed):
@@ -405,6 +468,7 @@ def write_evidence(prop, tier, base_seed, agg, st_msg, violations_new, extra=Non
             'faults_fired': faults,
             'probes': probes,
             'ops': envs,
+            'systematic_sweep': {k: v for k, v in sorted(c.items()) if k.startswith('sweep.')},
             'yields': c.get('yield', 0),
             'determinism_selftest': st_msg,
             'real_code': ['parso (all of it: cache, file_io, grammar, diff parser, tokenizer, parser)', 'pickle',
